@@ -58,6 +58,10 @@ def worlds(tier):
     g, t = reqs(3, release=["sym", 0, 3], deadline=["sym", 0, 12])
     ws.append(w.W("3req-1model-second-worker-without-model", g, GPU1x2, "CLOCKWORK", models={"M0": model([1, 2], rts={2: 3}), "M1": model([1])}, tasks=t, preload={"0:0": ["M0"], "0:1": ["M1"]}, split=8,
                   weight=100, retry_loops=True))
+    # a scheduler that is configured to take time itself (batch of two only: the first request waits for a partner)
+    g, t = reqs(2, release=["sym", 0, 6], deadline=["sym", 0, 14])
+    ws.append(w.W("2req-1model-b[2]-nonzero-scheduler-runtime", g, GPU1, "CLOCKWORK", models={"M0": model([2])}, tasks=t, preload={"0:0": ["M0"]}, split=6, weight=30, retry_loops=True,
+                  sched_runtime=["sym", 0, 3]))
     if tier == "thorough":
         g, t = reqs(4, models=("M0", "M1"), release=["sym", 0, 4], deadline=["sym", 0, 12])
         ws.append(w.W("4req-2models-both-loaded-two-workers", g, GPU1x2, "CLOCKWORK", goal="least_slack", models={"M0": model([2, 1]), "M1": model([1, 2])}, tasks=t,
